@@ -4,18 +4,19 @@ from core import CheckError, short, short_fn
 from rules_send import FLAVOURS, WRITE_OPS, CAS_OPS, PAYLOAD_ANY, index_sources
 from rules_pop import callers_of
 from rules_wait import guard_drops
+from engine import is_const, norm_rel
 
 LOCKS = r'(Mutex|RwLock)(::<.*>)?::(lock|try_lock|write|read|try_write|try_read)$'
 
 
 def run(ctx):
-    _p12a(ctx)
-    _p12b(ctx)
-    _p12c(ctx)
-    _p12d(ctx)
-    _w12(ctx)
-    _p13(ctx)
-    _p13d(ctx)
+    ctx.step(_p12a, ctx)
+    ctx.step(_p12b, ctx)
+    ctx.step(_p12c, ctx)
+    ctx.step(_p12d, ctx)
+    ctx.step(_w12, ctx)
+    ctx.step(_p13, ctx)
+    ctx.step(_p13d, ctx)
 
 
 def _p12a(ctx):
@@ -24,16 +25,9 @@ def _p12a(ctx):
     x = g.x
     dels = x.inlined(r'memory::ToFree::delete$')
     ctx.floor('P12a', len(dels), 1, 'ToFree::delete call in try_freeing')
-    ne_edges = set()
-    eq_seen = False
-    for sid in x.switches():
-        e = g.strip(g.switch_expr(sid))
-        if e[0] == 'bin' and e[1] in ('Ne', 'Eq'):
-            l, r = g.strip(e[2]), g.strip(e[3])
-            for (p, q) in ((l, r), (r, l)):
-                if p[0] == 'call' and x.rep(p[1]) in x.atoms and x.atoms[x.rep(p[1])].on('MemToken.epoch') and q == ('param', g.root_inst, 2):
-                    ne_edges.update(x.switch_edges(sid, 'nonzero' if e[1] == 'Ne' else 'zero'))
-                    eq_seen = True
+    _eq, ne_edges, _h = x.eq_tests(lambda a_, b_: a_[0] == 'call' and x.rep(a_[1]) in x.atoms and x.atoms[x.rep(a_[1])].on('MemToken.epoch')
+                                   and b_ == ('param', g.root_inst, 2))
+    eq_seen = bool(_h)
     nexts = [n for n in x.ext_calls(r'Iterator::next$|::next$')
              if any(p.endswith('MemoryManagerInner.tokens') for a in g.call_args(n) for c in x.calls_in(a) for p in g.locpaths(g.call_args(c)[0]) if g.call_args(c))]
     none_edges = set()
@@ -51,9 +45,9 @@ def _p12a(ctx):
                 is_all = (g.call_name(n) or '').endswith('all')
                 pred = None
                 for ci in g.nodes[n].call['closure_insts']:
-                    rv = g.strip(g.ev_local(ci, 0))
-                    if rv[0] == 'bin' and rv[1] in ('Eq', 'Ne') and any(a.on('MemToken.epoch') for a in x.loads_in(rv)):
-                        pred = rv[1]
+                    nr_ = norm_rel(g, g.ev_local(ci, 0))
+                    if nr_ and nr_[0] == 'Eq' and any(a.on('MemToken.epoch') for sd in nr_[1:3] for a in x.loads_in(sd)):
+                        pred = 'Eq' if nr_[3] else 'Ne'
                 want = None
                 if is_all and pred == 'Eq':
                     want = 'nonzero'
@@ -176,15 +170,20 @@ def _p13d(ctx):
                     writes.append(x.rep(n.id))
     writes = sorted(set(writes))
     ctx.floor('P13d', len(writes), 1, 'installation of a new retired-object batch (MemoryManagerInner.tofree)')
+    def _inner(sd):
+        return any(s[0] == 'fld' and s[2] == 'MemoryManagerInner.epoch' for s in g.deep_walk(sd))
+
+    def _glob(sd):
+        return any(a.on('MemoryManager.epoch') for a in x.loads_in(sd))
     done_edges = set()
+    for t_ in x.tests(('Eq',)):
+        if (_inner(t_.a) or _inner(t_.b)) and (_glob(t_.a) or _glob(t_.b)):
+            done_edges.update(t_.true)
+    _z, _nz, _h = x.zero_tests(lambda e_: e_[0] == 'call' and bool(re.search(r'Vec(::<.*>)?::len$', g.call_name(e_[1]) or '')) and
+                               any(s[0] == 'fld' and s[2] == 'MemoryManagerInner.tofree' for s in g.deep_walk(g.call_args(e_[1])[0])))
+    done_edges.update(_z)
     for sid in x.switches():
         e = g.strip(g.switch_expr(sid))
-        if e[0] == 'bin' and e[1] in ('Eq', 'Ne'):
-            sides = [g.strip(e[2]), g.strip(e[3])]
-            has_inner = any(any(s[0] == 'fld' and s[2] == 'MemoryManagerInner.epoch' for s in g.deep_walk(sd)) for sd in sides)
-            has_glob = any(any(a.on('MemoryManager.epoch') for a in x.loads_in(sd)) for sd in sides)
-            if has_inner and has_glob:
-                done_edges.update(x.switch_edges(sid, 'nonzero' if e[1] == 'Eq' else 'zero'))
         if e[0] == 'call' and re.search(r'Vec(::<.*>)?::is_empty$', g.call_name(e[1]) or '') and \
                 any(s[0] == 'fld' and s[2] == 'MemoryManagerInner.tofree' for s in g.deep_walk(g.call_args(e[1])[0])):
             done_edges.update(x.switch_edges(sid, 'nonzero'))
@@ -343,12 +342,7 @@ def _p13(ctx):
         ops = [n for n in x.ext_calls(PAYLOAD_ANY) if g.call_args(n) and any('QueueEntry.val' in p for p in g.locpaths(g.call_args(n)[0]))]
         drops_ = [n.id for n in g.nodes if n.id in g.live() and n.kind == 'block' and n.term['k'] == 'drop' and n.term['dty']['k'] == 'param']
         if fl == 'BCast':
-            untag = set()
-            for sid in x.switches():
-                e = g.strip(g.switch_expr(sid))
-                if any(a.on('QueueEntry.wraps') for a in x.loads_in(e)):
-                    pol = 'zero' if (e[0] == 'bin' and e[1] == 'Ne') else 'nonzero'
-                    untag.update(x.switch_edges(sid, pol))
+            untag, _t, _h = x.zero_tests(lambda e_: e_[0] == 'bin' and e_[1] == 'BitAnd' and any(a.on('QueueEntry.wraps') for a in x.loads_in(e_)))
             reads = [n for n in ops if re.search(r'ptr::read$|drop_in_place$', g.call_name(n))]
             c1 = bool(reads) and bool(untag) and all(x.dom(untag, r) for r in reads)
             c2 = all(not (x.reach_from(e_, blocked=set(reads)) & (set(g.exits) | set(x.ext_calls(r'Iterator::next$|::next$')))) for e_ in untag)
@@ -369,13 +363,12 @@ def _p13(ctx):
                     if s[0] == 'fld' and s[2] == 'ReadCursor.last_pos':
                         src_ok = True
             head_cmp = False
-            for sid in x.switches():
-                e = g.strip(g.switch_expr(sid))
-                if e[0] == 'bin' and e[1] in ('Ne', 'Eq') and any(a.on('MultiQueue.head/') for a in x.loads_in(e)):
-                    l, r = g.strip(e[2]), g.strip(e[3])
-                    # the range test compares the two raw position counts (same domain as head): no masking / arithmetic
-                    if l[0] == 'call' and r[0] == 'call' and x.rep(l[1]) in x.atoms and x.rep(r[1]) in x.atoms:
-                        head_cmp = True
+            for t_ in x.tests(('Eq',)):
+                l, r = t_.a, t_.b
+                # the range test compares the two raw position counts (same domain as head): no masking / arithmetic
+                if l[0] == 'call' and r[0] == 'call' and x.rep(l[1]) in x.atoms and x.rep(r[1]) in x.atoms and \
+                        (x.atoms[x.rep(l[1])].on('MultiQueue.head/') or x.atoms[x.rep(r[1])].on('MultiQueue.head/')):
+                    head_cmp = True
             ok = bool(dips) and src_ok and head_cmp and len(ops) == len(dips)
             ctx.add('P13c', 'T-GUARD', dq, ok, 'move-out teardown destroys the slots from last_pos up to head' if ok else
                     'move-out teardown: drop_in_place present=%s, starts at last_pos=%s, loop bounded by comparing the raw position count with head (unmasked)=%s, no other payload op=%s' % (bool(dips), src_ok, head_cmp, len(ops) == len(dips)),
